@@ -1,0 +1,162 @@
+//! C17 adapter: the real `MemoryStore` behind the line protocol.
+//!
+//! Logical time: the clock of a case stands at 1000; one unit is one hour of real time, so the
+//! real clock cannot cross a unit boundary during a case.
+
+use super::{
+    record::{ContentProvider, Key, Record},
+    store::{MemoryStore, MemoryStoreConfig},
+    Quorum,
+};
+use crate::verif::{peer, peer_index, unhex, VerifBox};
+
+use std::time::{Duration, Instant};
+
+const UNIT: Duration = Duration::from_secs(3600);
+const PAST_UNIT: Duration = Duration::from_millis(1);
+const NOW: i64 = 1000;
+
+pub struct StoreBox {
+    store: Option<MemoryStore>,
+    /// Real instant standing for logical time `NOW`.
+    base: Instant,
+}
+
+impl StoreBox {
+    pub fn new() -> Self {
+        Self {
+            store: None,
+            base: Instant::now(),
+        }
+    }
+
+    /// Future logical times are whole hours ahead; past ones are milliseconds behind `base`
+    /// (anything at or before `base` is expired for the real clock, whatever the scale).
+    fn instant(&self, logical: i64) -> Instant {
+        if logical >= NOW {
+            self.base + UNIT * ((logical - NOW) as u32)
+        } else {
+            self.base - PAST_UNIT * ((NOW - logical) as u32)
+        }
+    }
+
+    fn logical(&self, t: Instant) -> i64 {
+        if t >= self.base {
+            NOW + ((t - self.base).as_secs_f64() / UNIT.as_secs_f64()).round() as i64
+        } else {
+            NOW - ((self.base - t).as_secs_f64() / PAST_UNIT.as_secs_f64()).round() as i64
+        }
+    }
+}
+
+impl VerifBox for StoreBox {
+    fn step(&mut self, line: &str) -> String {
+        let t: Vec<&str> = line.split_whitespace().collect();
+        match t.as_slice() {
+            ["cfg", recs, size, pkeys, paddrs, perkey, ttl] => {
+                let n = |s: &str| s.parse::<usize>().expect("number");
+                let config = MemoryStoreConfig {
+                    max_records: n(recs),
+                    max_record_size_bytes: n(size),
+                    max_provider_keys: n(pkeys),
+                    max_provider_addresses: n(paddrs),
+                    max_providers_per_key: n(perkey),
+                    provider_refresh_interval: Duration::from_secs(3600 * 24),
+                    provider_ttl: UNIT * n(ttl) as u32,
+                };
+                self.store = Some(MemoryStore::with_config(peer(0), config));
+                self.base = Instant::now();
+                "ok".into()
+            }
+            ["put", key, vlen, tag, exp] => {
+                let expires = match *exp {
+                    "none" => None,
+                    e => Some(self.instant(e.parse().expect("exp"))),
+                };
+                let record = Record {
+                    key: Key::from(unhex(key)),
+                    value: vec![tag.parse().expect("tag"); vlen.parse().expect("vlen")],
+                    publisher: None,
+                    expires,
+                };
+                self.store.as_mut().expect("cfg first").put(record);
+                "ok".into()
+            }
+            ["get", key] => {
+                let found = self
+                    .store
+                    .as_mut()
+                    .expect("cfg first")
+                    .get(&Key::from(unhex(key)))
+                    .cloned();
+                match found {
+                    None => "none".into(),
+                    Some(r) => {
+                        let tag = r.value.first().copied().unwrap_or(0);
+                        let uniform = r.value.iter().all(|b| *b == tag);
+                        let exp = match r.expires {
+                            None => "none".to_string(),
+                            Some(t) => self.logical(t).to_string(),
+                        };
+                        format!("some {} {} {}{}", r.value.len(), tag, exp, if uniform { "" } else { " corrupt" })
+                    }
+                }
+            }
+            ["putprov", key, idx, naddrs, ..] => {
+                let addresses = (0..naddrs.parse::<u16>().expect("naddrs"))
+                    .map(|i| format!("/ip4/10.0.0.1/tcp/{}", 1000 + i).parse().expect("addr"))
+                    .collect();
+                let provider = ContentProvider {
+                    peer: peer(idx.parse().expect("idx")),
+                    addresses,
+                };
+                self.store
+                    .as_mut()
+                    .expect("cfg first")
+                    .put_provider(Key::from(unhex(key)), provider)
+                    .to_string()
+            }
+            ["putlocal", key, ..] => self
+                .store
+                .as_mut()
+                .expect("cfg first")
+                .put_local_provider(Key::from(unhex(key)), Quorum::One)
+                .to_string(),
+            ["rmlocal", key, ..] => {
+                self.store
+                    .as_mut()
+                    .expect("cfg first")
+                    .remove_local_provider(Key::from(unhex(key)));
+                "ok".into()
+            }
+            ["provs", key] => {
+                let providers =
+                    self.store.as_mut().expect("cfg first").get_providers(&Key::from(unhex(key)));
+                let items: Vec<String> = providers
+                    .iter()
+                    .map(|p| {
+                        let ports: Vec<String> = p
+                            .addresses
+                            .iter()
+                            .map(|a| {
+                                a.iter()
+                                    .find_map(|c| match c {
+                                        multiaddr::Protocol::Tcp(port) => Some((port - 1000).to_string()),
+                                        _ => None,
+                                    })
+                                    .unwrap_or_else(|| "?".into())
+                            })
+                            .collect();
+                        format!(
+                            "{}:{}",
+                            peer_index(&p.peer).map(|i| i.to_string()).unwrap_or_else(|| "?".into()),
+                            ports.join("+")
+                        )
+                    })
+                    .collect();
+                format!("[{}]", items.join(","))
+            }
+            _ => "bad-op".into(),
+        }
+    }
+}
